@@ -579,6 +579,10 @@ pub struct Expect {
     /// the run ends with xargs' own error (status 1) after `spawns`
     pub own_error: Option<&'static str>,
     pub exit: i32,
+    /// an equally acceptable history: (invocations, exit status, arguments delivered). When an
+    /// argument fits nowhere the statement says the run ends with a diagnostic and status 1; it
+    /// does not say whether the invocation that was being filled still runs first.
+    pub alt: Option<(Vec<Vec<Vec<u8>>>, i32, usize)>,
 }
 
 pub fn cost(arg: &[u8]) -> usize {
@@ -711,28 +715,43 @@ pub fn expect_with(sc: &XargsScenario, cmd: &[String], cfg: &Config, spec: &TokS
         }
     }
     // fold the outcome script over the planned invocations
-    let mut any_fail = false;
-    let mut fatal = None;
-    for (k, argv) in planned.into_iter().enumerate() {
-        let o = sc.outcomes.get(k).cloned().unwrap_or(Outcome::Exit(0));
-        e.spawns.push(argv);
-        if let Some(st) = is_fatal(&o) {
-            fatal = Some(st);
-            break;
+    let fold = |planned: Vec<Vec<Vec<u8>>>| -> (Vec<Vec<Vec<u8>>>, i32, bool) {
+        let mut spawns = vec![];
+        let mut any_fail = false;
+        let mut fatal = None;
+        for (k, argv) in planned.into_iter().enumerate() {
+            let o = sc.outcomes.get(k).cloned().unwrap_or(Outcome::Exit(0));
+            spawns.push(argv);
+            if let Some(st) = is_fatal(&o) {
+                fatal = Some(st);
+                break;
+            }
+            if !matches!(o, Outcome::Exit(0)) {
+                any_fail = true;
+            }
         }
-        if !matches!(o, Outcome::Exit(0)) {
-            any_fail = true;
-        }
-    }
-    e.exit = if let Some(st) = fatal {
-        st
-    } else if own_error.is_some() {
-        1
-    } else if any_fail {
-        123
-    } else {
-        0
+        let exit = if let Some(st) = fatal {
+            st
+        } else if own_error.is_some() {
+            1
+        } else if any_fail {
+            123
+        } else {
+            0
+        };
+        (spawns, exit, fatal.is_some())
     };
+    if own_error == Some("argument-too-large") && matches!(cfg.mode, Mode::Batch) && !e.ranges.is_empty() && planned.len() == e.ranges.len() {
+        let mut shorter = planned.clone();
+        shorter.pop();
+        let upto = if e.ranges.len() >= 2 { e.ranges[e.ranges.len() - 2].1 } else { 0 };
+        let (sp, ex, _) = fold(shorter);
+        e.alt = Some((sp, ex, upto));
+    }
+    let (spawns, exit, fatal) = fold(planned);
+    e.spawns = spawns;
+    e.exit = exit;
+    let fatal = if fatal { Some(()) } else { None };
     e.own_error = if fatal.is_some() { None } else { own_error };
     e
 }
